@@ -9,7 +9,8 @@ SPEC = dict(
     rule="random matrices of sizes 1..12 plus a guaranteed share of 13..40 (thorough: 1..40), float and double: generic, nearly "
          "singular, graded singular values, small-integer, SPD, exactly rank-deficient small-integer products, numerically "
          "rank-deficient (noise below a user rcond), tall / wide / square, |A| or |b| near under/overflow, negator<> element "
-         "types; vector and matrix right-hand sides, repeated solves, refactorisation (LU, LLT, QTZ, SVD), inverses (LU, LLT, QTZ, "
+         "types; vector right-hand sides and Matrix right-hand sides (LU, LLT square; QTZ, SVD tall, square and wide x 1, 2, 3-5 columns, "
+         "each column judged separately and against the single-vector solve; every class in every run), repeated solves, refactorisation (LU, LLT, QTZ, SVD), inverses (LU, LLT, QTZ, "
          "SVD) and pseudo-inverses (QTZ, SVD); eigen: general, symmetric-valued, repeated, defective, small-scale; complex<double> "
          "LU and SVD solves through the real embedding; API-behaviour cases; default rcond through the rank / truncation of "
          "diag(1,t,0..) of random shapes; every record is judged by the exact-rational contract in the Lean driver and by the "
